@@ -23,6 +23,7 @@ independent gradient of the polynomial for the rhs, and the evaluability of `ham
 from __future__ import annotations
 
 import math
+import time
 import types as _types
 from fractions import Fraction
 
@@ -359,6 +360,77 @@ def twin_traces():
                                                                          c8.N_STAGES_EXTENDED, c8.INTERPOLATOR_POWER, None, None, 1)]
 
     pair("dense_dop853", g_dense, h_dense)
+
+    # ---- event drivers of the fixed-step family (event function and the shared Hermite refinement recorded) ---------
+    class RecE:
+        """recording event function: atoms g{j}; the shadow values steer the control flow (crossing in the 2nd step)"""
+
+        def __init__(self, shadows):
+            self.calls = []
+            self.shadows = shadows
+
+        def __call__(self, t, y):
+            j = len(self.calls)
+            self.calls.append([T.Sym.lift(t)] + [T.Sym.lift(v) for v in np.asarray(y, dtype=object).ravel()])
+            return T.Sym.var("g%d" % j, self.shadows[min(j, len(self.shadows) - 1)])
+
+    def flat(calls):
+        return [x for c in calls for x in c]
+
+    for p in sorted(rk.FixedRK._map):
+        integ = rk.FixedRK(p)
+        A, B, C = integ._A, integ._B_HIGH, integ._C
+
+        def run_ev(rec, ham, A=A, B=B, C=C, integ=integ):
+            _, y, _ = _inputs()
+            tv = T.symarray([T.Sym.var("t%d" % i, 0.1 + 0.13 * i * (i + 1)) for i in range(4)])
+            ev = RecE([-1.0, -0.5, 0.5])
+            refined = []
+
+            def refine(event_fn, t0, y0, f0, t1, y1, f1, h, direction, xtol, gtol):
+                if event_fn is not ev:
+                    raise ExtractError("refinement called with another event function")
+                refined.append([T.Sym.lift(t0)] + list(y0) + list(f0) + [T.Sym.lift(t1)] + list(y1) + list(f1) + [T.Sym.lift(h)]
+                               + [T.Sym.const(int(direction)), T.Sym.lift(xtol), T.Sym.lift(gtol)])
+                return T.Sym.var("thit", 0.2), T.symarray([T.Sym.var("yhit%d" % d, 0.1) for d in range(DIM)])
+
+            extra = {"_hermite_refine_in_step": refine}
+            if ham:
+                extra.update(_ham(rec))
+                f = T.retarget(type(integ)._integrate_fixed_rk_until_event_ham, extra)
+                hit, th, yh, st = f(y, tv, A, B, C, ev, 1, 1, 1e-9, 1e-10, None, None, 1)
+            else:
+                f = T.retarget(type(integ)._integrate_fixed_rk_until_event, extra)
+                hit, th, yh, st = f(rec, y, tv, A, B, C, ev, 1, 1, 1e-9, 1e-10)
+            if not hit or len(refined) != 1:
+                raise ExtractError("traced event run did not refine exactly one crossing")
+            return [flat(ev.calls), flat(refined), [th], yh, st[:2]]
+
+        pair("event_fixed%d" % p, lambda rec, r=run_ev: r(rec, False), lambda rec, r=run_ev: r(rec, True))
+
+    # ---- DOP853 in-step refinement (the Hamiltonian copy inlines the dense-cache construction) ----------------------
+    def run_refine(rec, ham):
+        t, y, f0, y1, f1, h, K = dense_args()
+        evc = []
+
+        def ev(tt, yy):
+            tt = T.Sym.lift(tt)
+            evc.append([tt] + [T.Sym.lift(v) for v in np.asarray(yy, dtype=object).ravel()])
+            x = (tt.val - t.val) / h.val
+            return T.Sym.var("g%d" % (len(evc) - 1), x - 0.3)
+
+        t1 = t + h
+        if ham:
+            f = T.retarget(rk._dop853_refine_in_step_ham, _ham(rec))
+            th, yh = f(ev, t, y, f0, t1, y1, f1, h, K, c8.A, c8.C, c8.D, c8.N_STAGES_EXTENDED, c8.INTERPOLATOR_POWER, 1, 1e-3, 1e-12, None, None, 1)
+        else:
+            f = T.retarget(rk._dop853_refine_in_step)
+            th, yh = f(rec, ev, t, y, f0, t1, y1, f1, h, K, c8.A, c8.C, c8.D, c8.N_STAGES_EXTENDED, c8.INTERPOLATOR_POWER, 1, 1e-3, 1e-12)
+        if len(evc) < 4:
+            raise ExtractError("bisection did not iterate")
+        return [flat(evc), [th], yh]
+
+    pair("refine_dop853", lambda rec: run_refine(rec, False), lambda rec: run_refine(rec, True))
     return out, errs
 
 
@@ -432,3 +504,944 @@ def gen(ctx):
     ctx.write_gen("HitenModel.Gen.C17", txt)
     ctx.extra["traces"] = info
     return info
+
+
+# =====================================================================================================
+# 3. polynomial problems
+# =====================================================================================================
+
+def fr(x):
+    q = Fraction(x)
+    return str(q.numerator) if q.denominator == 1 else "%d/%d" % (q.numerator, q.denominator)
+
+
+def rand_exps(rng, deg):
+    e = [0] * 6
+    for _ in range(deg):
+        e[rng.randrange(6)] += 1
+    return tuple(e)
+
+
+def rand_int_poly(rng, max_deg, nterms, cplx=False):
+    """integer (or Gaussian-integer) coefficients, every degree 0..max_deg possible, always a top-degree term"""
+    d = {}
+    degs = [max_deg] + [rng.randint(0, max_deg) for _ in range(nterms - 1)]
+    for dg in degs:
+        c = rng.randint(-9, 9) or 3
+        if cplx:
+            c = complex(c, rng.randint(-9, 9))
+        d[rand_exps(rng, dg)] = c
+    return d
+
+
+def rand_ham(rng, max_deg, nterms=10, amp=0.4):
+    """oscillator part + random higher-order terms with float coefficients (bounded motion near the origin)"""
+    d = {}
+    for i in range(3):
+        w = rng.uniform(0.5, 1.5)
+        q = [0] * 6
+        q[i] = 2
+        p = [0] * 6
+        p[3 + i] = 2
+        d[tuple(q)] = 0.5 * w
+        d[tuple(p)] = 0.5 * rng.uniform(0.5, 1.5)
+    degs = [max_deg] + [rng.randint(3, max_deg) for _ in range(nterms - 1)]
+    for dg in degs:
+        d[rand_exps(rng, dg)] = d.get(rand_exps(rng, dg), 0.0) + rng.uniform(-amp, amp)
+    return d
+
+
+def hd_json(d):
+    return {",".join(map(str, k)): (v if not isinstance(v, complex) else [v.real, v.imag]) for k, v in d.items()}
+
+
+def hd_unjson(j):
+    return {tuple(int(x) for x in k.split(",")): (complex(*v) if isinstance(v, list) else v) for k, v in j.items()}
+
+
+def decode_poly(blocks, clmo):
+    """real packed polynomial -> {exps: complex}"""
+    from hiten.algorithms.polynomial.base import _decode_multiindex
+    out = {}
+    for deg, arr in enumerate(blocks):
+        a = np.asarray(arr)
+        for pos in np.nonzero(a)[0]:
+            k = tuple(int(v) for v in _decode_multiindex(int(pos), deg, clmo))
+            out[k] = out.get(k, 0) + complex(a[pos])
+    return out
+
+
+def parse_poly(txt):
+    """'c e0..e5 ; c e0..e5' -> {exps: Fraction} (terms with equal exponents merged, zeros dropped)"""
+    out = {}
+    for part in txt.split(";"):
+        w = part.split()
+        if not w:
+            continue
+        k = tuple(int(x) for x in w[1:])
+        out[k] = out.get(k, 0) + Fraction(w[0])
+    return {k: v for k, v in out.items() if v != 0}
+
+
+# =====================================================================================================
+# 4. exact correspondence of the polynomial model with the real kernels
+# =====================================================================================================
+
+def corr_poly(ctx):
+    import polyutil as PU
+    from hiten.algorithms.dynamics.hamiltonian import _hamiltonian_rhs
+    from hiten.algorithms.integrators import symplectic as sy
+    from hiten.algorithms.polynomial.base import _decode_multiindex
+    from hiten.algorithms.polynomial.operations import _polynomial_evaluate, _polynomial_jacobian
+    rng = ctx.rng
+    name = "correspondence:polynomial-rhs-model"
+    bad = []
+    max_deg_all = 8 if ctx.thorough() else 6
+    # ---- packed layout -----------------------------------------------------------------------------------
+    psi, clmo, enc = PU.tables(max_deg_all)
+    lines = ["enum 6 %d" % d for d in range(max_deg_all + 1)]
+    out = [l for l in ctx.lean_run("Drivers/C17.lean", "\n".join(lines) + "\n") if l.startswith("enum")]
+    for d, l in enumerate(out):
+        model = [tuple(int(x) for x in part.split()) for part in l[4:].split(";")]
+        real = [tuple(int(v) for v in _decode_multiindex(pos, d, clmo)) for pos in range(int(psi[6, d]))]
+        ctx.case(("enum", d), kind="layout", nontrivial=d > 0)
+        if model != real:
+            bad.append("packed layout of degree %d differs from the model enumeration" % d)
+    if len(out) != max_deg_all + 1:
+        bad.append("driver returned %d enumerations" % len(out))
+    # ---- jacobian / evaluate / rhs / evaluators -----------------------------------------------------------
+    ncases = 40 if ctx.thorough() else 14
+    cases = []
+    for c in range(ncases):
+        deg = rng.choice([2, 3, 4, 5, 6] + ([7, 8] if ctx.thorough() else [6]))
+        cplx = (c % 4 == 3)
+        d = rand_int_poly(rng, deg, rng.randint(3, 9), cplx)
+        pts = [[Fraction(rng.randint(-8, 8), 4) for _ in range(6)] for _ in range(3)]
+        if c == 0:
+            pts[0] = [Fraction(0)] * 6
+        cases.append((deg, d, pts, cplx))
+    text, plan = [], []
+    for deg, d, pts, cplx in cases:
+        parts = [("re", {k: int(complex(v).real) for k, v in d.items()})]
+        if cplx:
+            parts.append(("im", {k: int(complex(v).imag) for k, v in d.items()}))
+        for tag, dd in parts:
+            text.append("poly")
+            for k, v in dd.items():
+                text.append("m %d %s" % (v, " ".join(map(str, k))))
+            text.append("jac")
+            for z in pts:
+                text.append("at " + " ".join(fr(x) for x in z))
+            # the same polynomial through the packed blocks of the real builder
+            if tag == "re":
+                H = PU.poly_from_dict(dd, deg)
+                text.append("poly")
+                for blk in H:
+                    text.append("blk " + " ".join(str(int(x.real)) for x in blk))
+                text.append("unpack")
+            plan.append((tag, deg, d, pts))
+    out = [l for l in ctx.lean_run("Drivers/C17.lean", "\n".join(text) + "\n") if l.strip()]
+    if any(l.startswith("bad-op") for l in out):
+        bad.append("driver rejected an operation")
+    it = iter(out)
+
+    def nxt(prefix):
+        l = next(it)
+        if not l.startswith(prefix):
+            raise RuntimeError("driver protocol: expected %r, got %r" % (prefix, l[:80]))
+        return l[len(prefix):]
+
+    model = {}
+    for tag, deg, d, pts in plan:
+        jm = []
+        for i in range(6):
+            jm.append(parse_poly(nxt("jac %d :" % i)))
+        ats = []
+        for z in pts:
+            ats.append({"H": Fraction(nxt("H ")), "rhs": [Fraction(x) for x in nxt("rhs ").split()],
+                        "dq": [Fraction(x) for x in nxt("dq ").split()], "dp": [Fraction(x) for x in nxt("dp ").split()],
+                        "hder": [Fraction(x) for x in nxt("hder ").split()]})
+        up = parse_poly(nxt("unpacked")) if tag == "re" else None
+        model[(id(d), tag)] = (jm, ats, up)
+    nexact = 0
+    for deg, d, pts, cplx in cases:
+        sysm, H = PU.ham_system(d, deg)
+        psi, clmo, enc = PU.tables(deg)
+        jac_direct = _polynomial_jacobian(H, deg, psi, clmo, enc)
+        jm_re, ats, up = model[(id(d), "re")]
+        jm_im = model[(id(d), "im")][0] if cplx else [{}] * 6
+        tagc = "deg%d%s" % (deg, "c" if cplx else "")
+        dre = {k: Fraction(int(complex(v).real)) for k, v in d.items() if complex(v).real != 0}
+        if up != dre:
+            bad.append("%s: unpacking the real coefficient blocks in the model's layout gives a different polynomial" % tagc)
+        for nm, jac in (("hamsys.jac_H", sysm.jac_H), ("_polynomial_jacobian", jac_direct)):
+            if len(jac) != 6:
+                bad.append("%s: %s has %d entries" % (tagc, nm, len(jac)))
+                continue
+            for i in range(6):
+                real = decode_poly(jac[i], clmo)
+                rre = {k: Fraction(v.real) for k, v in real.items() if v.real != 0}
+                rim = {k: Fraction(v.imag) for k, v in real.items() if v.imag != 0}
+                ctx.case((tagc, nm, i, len(d)), kind="jacobian", nontrivial=bool(rre),
+                         sample={"H": hd_json(d), "var": i, "dH": {",".join(map(str, k)): float(v) for k, v in rre.items()}} if i == 3 and nm[0] == "h" else None)
+                if rre != jm_re[i] or rim != jm_im[i]:
+                    bad.append("%s: %s[%d] = %r but the model derivative is %r (H = %r)" % (tagc, nm, i, real, jm_re[i], d))
+        jac_H, clmo_H, ndof = sysm.rhs_params
+        for z, m in zip(pts, ats):
+            zf = np.array([float(x) for x in z])
+            Q, P = zf[:3].copy(), zf[3:].copy()
+            got = {
+                "H": [complex(_polynomial_evaluate(H, zf.astype(np.complex128), clmo_H)).real],
+                "rhs": list(_hamiltonian_rhs(zf, jac_H, clmo_H, ndof)),
+                "dq": list(sy._eval_dH_dQ(Q, P, jac_H, clmo_H)),
+                "dp": list(sy._eval_dH_dP(Q, P, jac_H, clmo_H)),
+                "hder": list(sy._eval_hamiltonian_derivative(Q, P, jac_H, clmo_H)),
+                "sys.dq": list(sysm.dH_dQ(Q, P)),
+                "sys.dp": list(sysm.dH_dP(Q, P)),
+            }
+            want = {"H": [m["H"]], "rhs": m["rhs"], "dq": m["dq"], "dp": m["dp"], "hder": m["hder"], "sys.dq": m["dq"], "sys.dp": m["dp"]}
+            ctx.case((tagc, tuple(z)), kind="evaluation", nontrivial=any(v != 0 for v in m["rhs"]))
+            for k in got:
+                g = [Fraction(float(v)) for v in got[k]]
+                nexact += len(g)
+                if g != want[k]:
+                    bad.append("%s: %s at %s = %r, model %r (H = %r)" % (tagc, k, [float(x) for x in z], [float(v) for v in got[k]],
+                                                                      [float(v) for v in want[k]], d))
+    ctx.corr_cases += len(cases)
+    ctx.extra["poly_correspondence"] = {"cases": len(cases), "max_degree": max_deg_all, "values_compared_exactly": nexact}
+    if bad:
+        broken(ctx, name, "; ".join(bad[:4]))
+        MODEL["poly_bad"] = bad
+    else:
+        ctx.obligations[name] = True
+    return not bad
+
+
+def corr_fixed_model(ctx):
+    """the oracle-program model `fixedDriver` over Q against the real fixed-grid drivers (1e-12: float rounding)"""
+    import polyutil as PU
+    from hiten.algorithms.integrators import rk
+    rng = ctx.rng
+    name = "correspondence:fixed-driver-model"
+    bad = []
+    worst = 0.0
+    for p, nsteps, deg in ((4, 2, 3), (6, 1, 3), (8, 1, 2)):
+        integ = rk.FixedRK(p)
+        A, B, C = integ._A, integ._B_HIGH, integ._C
+        d = rand_int_poly(rng, deg, 5)
+        d = {k: v for k, v in d.items() if sum(k) >= 1}
+        d[(1, 0, 0, 1, 0, 0)] = 1
+        sysm, H = PU.ham_system(d, deg)
+        jac_H, clmo_H, ndof = sysm.rhs_params
+        y0 = np.array([rng.randint(-4, 4) / 4.0 for _ in range(6)])
+        hs = [Fraction(1, 8)] * nsteps
+        tv = np.array([0.0] + list(np.cumsum([float(h) for h in hs])))
+        text = ["poly"] + ["m %d %s" % (v, " ".join(map(str, k))) for k, v in d.items()] + ["tab"]
+        s = len(B)
+        for i in range(s):
+            text.append("rowA " + " ".join(fr(float(A[i, j])) for j in range(i)))
+        text.append("rowB " + " ".join(fr(float(b)) for b in B))
+        text.append("grid " + " ".join(fr(h) for h in hs))
+        text.append("fixed " + " ".join(fr(float(v)) for v in y0))
+        out = [l for l in ctx.lean_run("Drivers/C17.lean", "\n".join(text) + "\n") if l.strip()]
+        nodes = [l for l in out if l.startswith("node")]
+        queries = [[float(Fraction(x)) for x in l.split()[1:]] for l in out if l.startswith("query")]
+        ms, md = [], []
+        for l in nodes:
+            a, b = l[5:].split("|")
+            ms.append([float(Fraction(x)) for x in a.split()])
+            md.append([float(Fraction(x)) for x in b.split()])
+        st, dv = type(integ)._integrate_fixed_rk_ham(y0, tv, A, B, np.empty(0), C, False, jac_H, clmo_H, ndof)
+        tr = py_transcript_fixed(integ, sysm, y0, tv)
+        ctx.case(("fixed-model", p), kind="driver-model", sample={"order": p, "steps": nsteps, "H": hd_json(d)})
+        if len(ms) != len(st):
+            bad.append("order %d: model returns %d nodes, code %d" % (p, len(ms), len(st)))
+            continue
+        e = max(rel_diff(ms, st), rel_diff(md, dv))
+        worst = max(worst, e)
+        if not e <= 1e-12:
+            bad.append("order %d: model and code differ by %g (states/derivatives)" % (p, e))
+        if tr is not None:
+            if len(tr) != len(queries):
+                bad.append("order %d: the code issues %d vector-field queries, the model %d" % (p, len(tr), len(queries)))
+            else:
+                e = rel_diff(queries, tr)
+                worst = max(worst, e)
+                if not e <= 1e-12:
+                    bad.append("order %d: query sequences differ by %g" % (p, e))
+    ctx.extra["fixed_model_worst_rel"] = worst
+    if bad:
+        broken(ctx, name, "; ".join(bad[:3]))
+    else:
+        ctx.obligations[name] = True
+
+
+def rel_diff(a, b):
+    a = np.asarray(a, dtype=float)
+    b = np.asarray(b, dtype=float)
+    if a.shape != b.shape:
+        return float("inf")
+    if a.size == 0:
+        return 0.0
+    with np.errstate(all="ignore"):
+        d = np.abs(a - b) / (1.0 + np.maximum(np.abs(a), np.abs(b)))
+    d = np.where(np.isnan(a) & np.isnan(b), 0.0, d)
+    return float(np.nanmax(d)) if not np.all(np.isnan(d)) else float("inf")
+
+
+# =====================================================================================================
+# 5. python-mode clones of the kernels (oracle transcripts)
+# =====================================================================================================
+
+def pyclone(fn, extra, _memo=None):
+    """plain-Python copy of a numba function whose numba callees are cloned too; `extra` rebinds global names
+    (the recording vector field, `List` -> list)."""
+    if _memo is None:
+        _memo = {}
+    f = getattr(fn, "py_func", fn)
+    if id(f) in _memo:
+        return _memo[id(f)]
+    g = dict(f.__globals__)
+    new = _types.FunctionType(f.__code__, g, f.__name__, f.__defaults__, f.__closure__)
+    new.__kwdefaults__ = f.__kwdefaults__
+    _memo[id(f)] = new
+    for nm in set(f.__code__.co_names):
+        if nm in extra:
+            continue
+        obj = f.__globals__.get(nm)
+        if obj is not None and hasattr(obj, "py_func") and callable(obj):
+            g[nm] = pyclone(obj, extra, _memo)
+    g.update(extra)
+    g.setdefault("prange", range)
+    return new
+
+
+DRIVER_ATTRS = {
+    "_FixedStepRK": ["_integrate_fixed_rk", "_integrate_fixed_rk_ham", "_integrate_fixed_rk_until_event", "_integrate_fixed_rk_until_event_ham"],
+    "_RK45": ["_integrate_rk45", "_integrate_rk45_ham", "_integrate_rk45_until_event", "_integrate_rk45_until_event_ham"],
+    "_DOP853": ["_integrate_dop853", "_integrate_dop853_ham", "_integrate_dop853_until_event", "_integrate_dop853_until_event_ham"],
+}
+
+
+class PyMode:
+    """context manager: the numba drivers of rk.py run as Python (their current bodies), the vector field and the event
+    function are recorded.  Class attributes are restored on exit."""
+
+    def __init__(self):
+        self.rhs_log = []
+        self.ev_log = []
+        self.saved = []
+
+    def rec_rhs(self, y, jac, clmo, ndof):
+        from hiten.algorithms.dynamics.hamiltonian import _hamiltonian_rhs
+        yy = np.ascontiguousarray(y, dtype=np.float64)
+        self.rhs_log.append(yy.tobytes())
+        return _hamiltonian_rhs(yy, jac, clmo, ndof)
+
+    def __enter__(self):
+        from hiten.algorithms.integrators import rk
+        extra = {"_hamiltonian_rhs": self.rec_rhs, "List": list}
+        memo = {}
+        for cls, names in DRIVER_ATTRS.items():
+            c = getattr(rk, cls)
+            for nm in names:
+                if nm not in c.__dict__:
+                    continue
+                self.saved.append((c, nm, c.__dict__[nm]))
+                setattr(c, nm, staticmethod(pyclone(getattr(c, nm), extra, memo)))
+        return self
+
+    def __exit__(self, *a):
+        for c, nm, old in self.saved:
+            setattr(c, nm, old)
+        return False
+
+
+class _GenSys:
+    """duck-typed generic dynamical system whose rhs is a Python recorder (python-mode only)"""
+
+    def __init__(self, pm, sysm):
+        jac, clmo, ndof = sysm.rhs_params
+        self.dim = 6
+        self.rhs = lambda t, y: pm.rec_rhs(y, jac, clmo, ndof)
+
+    def _build_rhs_impl(self):
+        return self.rhs
+
+
+def _py_event(pm, ev):
+    def g(t, y):
+        pm.ev_log.append((float(t), np.ascontiguousarray(y, dtype=np.float64).tobytes()))
+        return ev(float(t), y)
+    return g
+
+
+def distinct(seq):
+    seen, out = set(), []
+    for x in seq:
+        if x not in seen:
+            seen.add(x)
+            out.append(x)
+    return out
+
+
+def py_run(integ, sysm, y0, tv, generic, ev=None, direction=0):
+    """run the real `integrate` with python-mode kernels; -> (solution, distinct rhs queries, event queries)"""
+    from hiten.algorithms.types.configs import EventConfig
+    with PyMode() as pm:
+        system = _GenSys(pm, sysm) if generic else sysm
+        kw = {}
+        old = integ.__dict__.get("_compile_event_function")
+        if ev is not None:
+            integ._compile_event_function = lambda f: f
+            kw = {"event_fn": _py_event(pm, ev), "event_cfg": EventConfig(direction=direction, terminal=True)}
+        try:
+            with np.errstate(all="ignore"):
+                sol = integ.integrate(system, y0.copy(), tv.copy(), **kw)
+        finally:
+            if ev is not None:
+                if old is None:
+                    del integ.__dict__["_compile_event_function"]
+                else:
+                    integ._compile_event_function = old
+        return sol, distinct(pm.rhs_log), list(pm.ev_log)
+
+
+def py_transcript_fixed(integ, sysm, y0, tv):
+    """all rhs queries (with repeats, in order) of the Hamiltonian fixed-grid driver"""
+    try:
+        with PyMode() as pm:
+            integ.integrate(sysm, y0.copy(), tv.copy())
+            return [np.frombuffer(b, dtype=np.float64).tolist() for b in pm.rhs_log]
+    except Exception:  # noqa: BLE001
+        return None
+
+
+def sol_arrays(sol):
+    d = getattr(sol, "derivatives", None)
+    return [np.asarray(sol.times, dtype=float), np.asarray(sol.states, dtype=float)] + ([np.asarray(d, dtype=float)] if d is not None else [])
+
+
+def same_bits(a, b):
+    return len(a) == len(b) and all(x.shape == y.shape and x.tobytes() == y.tobytes() for x, y in zip(a, b))
+
+
+def worst_rel(a, b):
+    if len(a) != len(b):
+        return float("inf")
+    return max([rel_diff(x, y) for x, y in zip(a, b)] + [0.0])
+
+
+# events (plain functions; compiled by the integrators themselves in compiled mode)
+def ev_q1(t, y):
+    return y[0] - 0.02
+
+
+def ev_p2(t, y):
+    return y[4] + 0.01
+
+
+def ev_none(t, y):
+    return y[0] * y[0] + 40.0
+
+
+EVENTS = {"q1": ev_q1, "p2": ev_p2, "never": ev_none}
+ROUND = 1e-9     # two executions of the same algorithm that differ only by re-association of float operations
+
+
+def configs(ctx):
+    """(family, order, integrator kwargs, grid kind, event name, direction)"""
+    out = []
+    tols = [1e-6, 1e-9, 1e-12] if ctx.thorough() else [1e-6, 1e-10]
+    for p in (4, 6, 8):
+        out.append(("fixed", p, {}, "asc", None, 0))
+        out.append(("fixed", p, {}, "desc", None, 0))
+        for ev, dr in (("q1", 0), ("q1", 1), ("p2", -1), ("never", 0)):
+            out.append(("fixed", p, {}, "asc", ev, dr))
+        out.append(("fixed", p, {}, "desc", "q1", 0))
+    for p in (5, 8):
+        for tol in tols:
+            kw = {"rtol": tol, "atol": tol}
+            out.append(("adaptive", p, kw, "asc", None, 0))
+            out.append(("adaptive", p, kw, "uneven", None, 0))
+            for ev, dr in (("q1", 0), ("p2", -1), ("q1", -1), ("never", 0)):
+                out.append(("adaptive", p, kw, "asc", ev, dr))
+        out.append(("adaptive", p, {"rtol": 1e-8, "atol": 1e-10, "max_step": 0.05}, "asc", None, 0))
+    return out
+
+
+def make_grid(kind, T_end=1.5):
+    if kind == "asc":
+        return np.linspace(0.0, T_end, 16)
+    if kind == "desc":
+        return np.linspace(0.0, -T_end, 16)
+    return np.array([0.0, 0.003, 0.25, 0.2500001, 0.9, 1.31, T_end])
+
+
+def make_integ(family, order, kw):
+    from hiten.algorithms.integrators import rk
+    return rk.FixedRK(order) if family == "fixed" else rk.AdaptiveRK(order, **kw)
+
+
+def cfg_key(cfg):
+    family, order, kw, grid, ev, dr = cfg
+    return "%s%d:%s:%s" % (family, order, "event" if ev else "grid", grid)
+
+
+def cfg_json(cfg):
+    family, order, kw, grid, ev, dr = cfg
+    return {"family": family, "order": order, "options": kw, "grid": grid, "event": ev, "direction": dr}
+
+
+def transcripts(ctx):
+    """oracle transcripts of the twin drivers (python-mode bodies, real `integrate` dispatch)"""
+    import polyutil as PU
+    rng = ctx.rng
+    name = "correspondence:twin-transcripts"
+    bad = []
+    nham = 3 if ctx.thorough() else 1
+    stats = {"pairs": 0, "rhs_queries": 0, "event_queries": 0, "py_vs_compiled_worst": 0.0}
+    for hi in range(nham):
+        deg = rng.choice([4, 6])
+        hd = rand_ham(rng, deg)
+        sysm, H = PU.ham_system(hd, deg)
+        y0 = np.array([rng.uniform(-0.25, 0.25) for _ in range(6)])
+        y0[0] = -0.1
+        cfgs = configs(ctx)
+        if not ctx.thorough():
+            cfgs = [c for i, c in enumerate(cfgs) if c[0] == "fixed" and c[1] == 4 or c[0] == "adaptive" and c[2].get("rtol") in (1e-6, 1e-8)]
+        for cfg in cfgs:
+            family, order, kw, grid, evn, dr = cfg
+            tv = make_grid(grid)
+            ev = EVENTS[evn] if evn else None
+            try:
+                sg, qg, eg = py_run(make_integ(family, order, kw), sysm, y0, tv, True, ev, dr)
+                sh, qh, eh = py_run(make_integ(family, order, kw), sysm, y0, tv, False, ev, dr)
+            except Exception as ex:  # noqa: BLE001
+                bad.append("%s: python-mode execution failed: %s: %s" % (cfg_key(cfg), type(ex).__name__, str(ex)[:200]))
+                continue
+            stats["pairs"] += 1
+            stats["rhs_queries"] += len(qh)
+            stats["event_queries"] += len(eh)
+            ag, ah = sol_arrays(sg), sol_arrays(sh)
+            ctx.case(("transcript", hi, json_key(cfg)), kind="transcript:" + family, nontrivial=len(qh) > 2)
+            msg = None
+            if len(qg) != len(qh):
+                msg = "the Hamiltonian twin queries the vector field at %d distinct states, the generic driver at %d" % (len(qh), len(qg))
+            elif qg != qh:
+                i = next(i for i, (a, b) in enumerate(zip(qg, qh)) if a != b)
+                e = rel_diff(np.frombuffer(qg[i]), np.frombuffer(qh[i]))
+                if e > ROUND:
+                    msg = "vector-field query #%d differs between the twins (rel %g)" % (i, e)
+            if msg is None and len(eg) != len(eh):
+                msg = "the twins evaluate the event function %d vs %d times" % (len(eh), len(eg))
+            if msg is None and eg != eh:
+                e = max(max(abs(a[0] - b[0]), rel_diff(np.frombuffer(a[1]), np.frombuffer(b[1]))) for a, b in zip(eg, eh))
+                if e > ROUND:
+                    msg = "event-function queries differ between the twins (rel %g)" % e
+            if msg is None and not same_bits(ag, ah):
+                e = worst_rel(ag, ah)
+                if e > ROUND:
+                    msg = "results differ between the twins (rel %g)" % e
+            if msg:
+                bad.append("%s (H#%d): %s" % (cfg_key(cfg), hi, msg))
+                MODEL.setdefault("transcript_bad", []).append((cfg, hd, y0.tolist(), msg))
+            # python-mode body vs compiled function (translation validation of the python-mode execution)
+            if hi == 0:
+                try:
+                    from hiten.algorithms.types.configs import EventConfig
+                    kwc = {"event_fn": ev, "event_cfg": EventConfig(direction=dr, terminal=True)} if ev else {}
+                    sc = make_integ(family, order, kw).integrate(sysm, y0.copy(), tv.copy(), **kwc)
+                    e = worst_rel(sol_arrays(sc), ah)
+                    stats["py_vs_compiled_worst"] = max(stats["py_vs_compiled_worst"], e)
+                    ctx.traces_validated += 1
+                    tol = 1e-9 if family == "fixed" else 1e3 * kw.get("rtol", 1e-9) + 1e-9
+                    if not e <= tol:
+                        bad.append("%s: python-mode body and compiled function differ by %g" % (cfg_key(cfg), e))
+                except Exception as ex:  # noqa: BLE001
+                    bad.append("%s: compiled execution failed: %s" % (cfg_key(cfg), ex))
+    ctx.extra["transcripts"] = stats
+    if bad:
+        broken(ctx, name, "; ".join(bad[:4]))
+    else:
+        ctx.obligations[name] = True
+    return not bad
+
+
+def json_key(cfg):
+    family, order, kw, grid, ev, dr = cfg
+    return "%s|%d|%s|%s|%s|%d" % (family, order, sorted(kw.items()), grid, ev, dr)
+
+
+# =====================================================================================================
+# 6. compiled differential execution: Hamiltonian system vs the same Hamilton equations as a generic vector field
+# =====================================================================================================
+
+_CUR = {}
+
+
+def _cur_rhs(y):
+    from hiten.algorithms.dynamics.hamiltonian import _hamiltonian_rhs
+    return _hamiltonian_rhs(y, _CUR["jac"], _CUR["clmo"], _CUR["ndof"])
+
+
+_G_OBJ = None
+_EV_C = {}
+
+
+def generic_swappable():
+    """one compiled generic vector field `g(t, y)` for the whole run: it calls back into Python, which evaluates the
+    library's own compiled `_hamiltonian_rhs` on the *current* system's data (so the float operations are identical and the
+    integrator kernels are compiled once for this field)"""
+    global _G_OBJ
+    if _G_OBJ is None:
+        import numba
+
+        @numba.njit(cache=False)
+        def g(t, y):
+            with numba.objmode(out="float64[::1]"):
+                out = _cur_rhs(y)
+            return out
+        _G_OBJ = g
+    return _G_OBJ
+
+
+def generic_closure(sysm):
+    """pure nopython generic field: `_hamiltonian_rhs` over immutable copies (tuples of arrays) of the system's data"""
+    import numba
+    from hiten.algorithms.dynamics.hamiltonian import _hamiltonian_rhs
+    jac, clmo, ndof = sysm.rhs_params
+    jt = tuple(tuple(np.ascontiguousarray(a) for a in p) for p in jac)
+    ct = tuple(np.ascontiguousarray(a) for a in clmo)
+
+    @numba.njit(cache=False)
+    def g(t, y):
+        return _hamiltonian_rhs(y, jt, ct, ndof)
+    return g
+
+
+def compiled_event(name):
+    import numba
+    from numba import types
+    if name not in _EV_C:
+        _EV_C[name] = numba.njit(types.float64(types.float64, types.float64[:]), cache=False)(EVENTS[name])
+    return _EV_C[name]
+
+
+def use_system(sysm):
+    _CUR["jac"], _CUR["clmo"], _CUR["ndof"] = sysm.rhs_params
+
+
+def run_cfg(cfg, system, y0):
+    from hiten.algorithms.types.configs import EventConfig
+    family, order, kw, grid, evn, dr = cfg
+    tv = make_grid(grid)
+    kwc = {"event_fn": compiled_event(evn), "event_cfg": EventConfig(direction=dr, terminal=True)} if evn else {}
+    with np.errstate(all="ignore"):
+        return make_integ(family, order, kw).integrate(system, y0.copy(), tv.copy(), **kwc)
+
+
+def report_twin(ctx, cfg, hd, deg, y0, gname, ah, ag, e):
+    family, order, kw, grid, evn, dr = cfg
+    key = "twin:%s%d:%s" % (family, order, "event" if evn else "grid")
+    what = ("%s order %d (%s, grid %s%s): integrating the polynomial Hamiltonian system and integrating the same Hamilton equations as a "
+            "generic vector field give different results (max relative difference %.3g)" % (
+                family, order, kw or "default options", grid, ", event %s direction %d" % (evn, dr) if evn else "", e))
+    names = ["times", "states", "derivatives"]
+    ctx.violation(key, what, {
+        "kind": "twin", "config": cfg_json(cfg), "hamiltonian": hd_json(hd), "degree": deg, "y0": [float(v) for v in y0],
+        "t_vals": make_grid(grid).tolist(), "generic_field": gname,
+        "hamiltonian_path": {n: a.tolist() for n, a in zip(names, ah)}, "generic_path": {n: a.tolist() for n, a in zip(names, ag)},
+        "expected": "identical outputs", "call": "integrator.integrate(create_hamiltonian_system(...), y0, t_vals, ...) vs "
+        "integrator.integrate(create_rhs_system(<(dH/dP,-dH/dQ)>), y0, t_vals, ...)"})
+
+
+def differential(ctx):
+    import polyutil as PU
+    from hiten.algorithms.dynamics.rhs import create_rhs_system
+    rng = ctx.rng
+    g_obj = create_rhs_system(generic_swappable(), 6, name="verif-generic")
+    nham = 6 if ctx.thorough() else 3
+    stats = {"runs": 0, "bitwise_equal": 0, "rounding_level": 0, "worst_rel": 0.0, "event_hits": 0, "closure_runs": 0, "sysrhs_runs": 0}
+    found = set()
+    for hi in range(nham):
+        deg = [4, 6, 8, 5, 7, 8][hi] if ctx.thorough() else [4, 6, 8][hi]
+        hd = rand_ham(rng, deg, nterms=8 if deg >= 7 else 10)
+        sysm, H = PU.ham_system(hd, deg)
+        use_system(sysm)
+        y0 = np.array([rng.uniform(-0.25, 0.25) for _ in range(6)])
+        y0[0] = -0.1 - 0.1 * rng.random()
+        gens = [("swappable", g_obj)]
+        if hi == 0:
+            gens.append(("closure", create_rhs_system(generic_closure(sysm), 6, name="verif-generic-closure")))
+            if MODEL.get("rhs_evaluable"):
+                gens.append(("hamsys.rhs", create_rhs_system(sysm.rhs, 6, name="verif-generic-own")))
+        for cfg in configs(ctx):
+            family, order, kw, grid, evn, dr = cfg
+            try:
+                sh = run_cfg(cfg, sysm, y0)
+            except Exception as ex:  # noqa: BLE001
+                broken(ctx, "differential:" + cfg_key(cfg), "Hamiltonian path raised %s: %s" % (type(ex).__name__, str(ex)[:300]))
+                continue
+            ah = sol_arrays(sh)
+            if evn and evn != "never" and len(sh.times) == 2 and sh.times[-1] != make_grid(grid)[-1]:
+                stats["event_hits"] += 1
+            for gname, gsys in gens:
+                if gname != "swappable" and (family == "adaptive" and kw.get("rtol") not in (1e-6, 1e-8)):
+                    continue
+                try:
+                    sg = run_cfg(cfg, gsys, y0)
+                except Exception as ex:  # noqa: BLE001
+                    broken(ctx, "differential:" + cfg_key(cfg), "generic path (%s) raised %s: %s" % (gname, type(ex).__name__, str(ex)[:300]))
+                    continue
+                ag = sol_arrays(sg)
+                stats["runs"] += 1
+                stats[{"closure": "closure_runs", "hamsys.rhs": "sysrhs_runs"}.get(gname, "runs")] += (gname != "swappable")
+                ctx.case(("diff", hi, gname, json_key(cfg)), kind="differential:%s%d:%s" % (family, order, "event" if evn else grid),
+                         nontrivial=True, sample={"config": cfg_json(cfg), "degree": deg, "final_state": ah[1][-1].tolist()} if hi == 0 and gname == "swappable" else None)
+                if same_bits(ah, ag):
+                    stats["bitwise_equal"] += 1
+                    continue
+                e = worst_rel(ah, ag)
+                stats["worst_rel"] = max(stats["worst_rel"], e if e != float("inf") else 1e300)
+                if e <= ROUND:
+                    stats["rounding_level"] += 1
+                    continue
+                k = (family, order, bool(evn))
+                if k not in found:
+                    found.add(k)
+                    report_twin(ctx, cfg, hd, deg, y0, gname, ah, ag, e)
+    ctx.extra["differential"] = stats
+    ctx.obligations["correspondence:compiled-twins-bitwise"] = not found
+    if found:
+        ctx.broken.append(("correspondence:compiled-twins-bitwise", "paths differ for %s" % sorted(found)))
+
+
+# =====================================================================================================
+# 7. evaluability of the exposed right-hand side and of the generic path for Hamiltonian systems
+# =====================================================================================================
+
+def evaluability(ctx):
+    import polyutil as PU
+    from hiten.algorithms.dynamics.base import _propagate_dynsys
+    from hiten.algorithms.dynamics.hamiltonian import _hamiltonian_rhs
+    from hiten.algorithms.integrators import rk
+    hd = {(2, 0, 0, 0, 0, 0): 0.5, (0, 0, 0, 2, 0, 0): 0.5, (0, 2, 0, 0, 0, 0): 0.4, (0, 0, 0, 0, 2, 0): 0.6, (0, 0, 2, 0, 0, 0): 0.8,
+          (0, 0, 0, 0, 0, 2): 0.5, (1, 0, 0, 1, 1, 0): 0.3, (0, 1, 1, 0, 0, 1): -0.2, (1, 1, 0, 1, 1, 0): 0.25}
+    sysm, H = PU.ham_system(hd, 4)
+    jac, clmo, ndof = sysm.rhs_params
+    y = np.array([0.1, 0.2, -0.1, 0.05, 0.02, 0.3])
+    want = _hamiltonian_rhs(y, jac, clmo, ndof)
+    base = {"hamiltonian": hd_json(hd), "degree": 4, "state": y.tolist()}
+    ctx.case(("evaluable", "rhs"), kind="evaluability")
+    try:
+        got = np.asarray(sysm.rhs(0.0, y))
+        MODEL["rhs_evaluable"] = True
+        if got.tobytes() != np.asarray(want).tobytes():
+            ctx.violation("rhs-differs", "hamsys.rhs(t, y) differs from _hamiltonian_rhs on the system's own data",
+                          dict(base, kind="rhs", call="hamsys.rhs(0.0, state)", observed=got.tolist(), expected=want.tolist()))
+    except Exception as ex:  # noqa: BLE001
+        MODEL["rhs_evaluable"] = False
+        ctx.violation("rhs-not-evaluable",
+                      "create_hamiltonian_system(...).rhs(t, y) cannot be evaluated: %s (the closure built by _HamiltonianSystem._build_rhs_impl "
+                      "captures numba typed lists, which cannot be lowered as free variables)" % type(ex).__name__,
+                      dict(base, kind="rhs", call="hamsys.rhs(0.0, state)", observed="%s: %s" % (type(ex).__name__, str(ex)[:400]),
+                           expected=want.tolist()))
+    # the generic path (_DirectedSystem wrapper -> compiled rhs) for Hamiltonian systems
+    T_end, steps = 1.0, 11
+    failed = []
+    for method, order, fwd in (("fixed", 4, 1), ("adaptive", 8, 1), ("fixed", 4, -1), ("adaptive", 5, -1)):
+        ctx.case(("evaluable", method, order, fwd), kind="evaluability")
+        call = "_propagate_dynsys(hamsys, state, 0.0, %g, forward=%d, steps=%d, method=%r, order=%d)" % (T_end, fwd, steps, method, order)
+        try:
+            sol = _propagate_dynsys(sysm, y, 0.0, T_end, forward=fwd, steps=steps, method=method, order=order)
+        except Exception as ex:  # noqa: BLE001
+            failed.append({"call": call, "observed": "%s: %s" % (type(ex).__name__, str(ex)[:300])})
+            if MODEL.get("rhs_evaluable") is False and len(failed) >= 2:
+                break       # same root cause; every further attempt costs a failed compilation
+            continue
+        # evaluable: must agree with the fast path (forward) / with the fast path on the mirrored grid (backward, fixed step)
+        tv = np.linspace(0.0, T_end, steps)
+        if method == "fixed":
+            fast = rk.RungeKutta(order).integrate(sysm, y.copy(), tv * fwd)
+        elif fwd == 1:
+            fast = rk.AdaptiveRK(order, rtol=1e-12, atol=1e-12, max_step=1e4).integrate(sysm, y.copy(), tv)
+        else:
+            fast = rk.FixedRK(8).integrate(sysm, y.copy(), np.linspace(0.0, -T_end, 401))
+        a, b = np.asarray(sol.states[-1]), np.asarray(fast.states[-1])
+        e = rel_diff(a, b)
+        tol = ROUND if (method == "fixed" or fwd == 1) else 1e-8
+        if not e <= tol:
+            ctx.violation("propagate-generic-differs:%s" % method,
+                          "%s differs from the Hamiltonian fast path by %g" % (call, e),
+                          dict(base, kind="propagate", call=call, observed=a.tolist(), expected=b.tolist()))
+        if not np.allclose(np.asarray(sol.times), fwd * tv):
+            ctx.violation("propagate-times:%s" % method, "%s returns times %r" % (call, np.asarray(sol.times)[:3].tolist()),
+                          dict(base, kind="propagate", call=call, observed=np.asarray(sol.times).tolist(), expected=(fwd * tv).tolist()))
+    if failed:
+        ctx.violation("propagate-rk-not-evaluable",
+                      "_propagate_dynsys(hamsys, method='fixed'|'adaptive') raises: the _DirectedSystem wrapper is not recognised as a Hamiltonian "
+                      "system, takes the generic path, and that path's right-hand side (hamsys.rhs) cannot be compiled",
+                      dict(base, kind="propagate", calls=failed, expected="the trajectory the Hamiltonian fast path produces"))
+
+
+# =====================================================================================================
+# 8. numerical search: the rhs against an independent gradient; the evaluators against the rhs
+# =====================================================================================================
+
+def rhs_numerics(ctx):
+    import polyutil as PU
+    from hiten.algorithms.dynamics.hamiltonian import _hamiltonian_rhs
+    from hiten.algorithms.integrators import symplectic as sy
+    rng = ctx.rng
+    n = 24 if ctx.thorough() else 8
+    worst = 0.0
+    for c in range(n):
+        deg = rng.choice([3, 4, 5, 6, 7, 8]) if ctx.thorough() else rng.choice([3, 4, 6, 8])
+        hd = rand_ham(rng, deg, nterms=12, amp=1.0)
+        sysm, H = PU.ham_system(hd, deg)
+        jac, clmo, ndof = sysm.rhs_params
+        for _ in range(4):
+            z = np.array([rng.uniform(-1.2, 1.2) for _ in range(6)])
+            g = PU.grad_poly_dict(hd, list(z))
+            scale = 1.0 + sum(abs(c_) * sum(k) * max(1.0, float(np.max(np.abs(z)))) ** sum(k) for k, c_ in hd.items())
+            want = np.array([g[3], g[4], g[5], -g[0], -g[1], -g[2]])
+            got = _hamiltonian_rhs(z, jac, clmo, ndof)
+            e = float(np.max(np.abs(got - want))) / scale
+            worst = max(worst, e)
+            ctx.case(("rhs", deg, c), kind="rhs-vs-independent-gradient", nontrivial=True)
+            if not e <= 1e-13:
+                ctx.violation("rhs-not-hamilton", "_hamiltonian_rhs is not (dH/dP, -dH/dQ) of the polynomial (error %g relative to the term scale)" % e,
+                              {"kind": "rhs-value", "hamiltonian": hd_json(hd), "degree": deg, "state": z.tolist(), "observed": got.tolist(),
+                               "expected": want.tolist(), "call": "_hamiltonian_rhs(state, *hamsys.rhs_params)"})
+                return
+            Q, P = z[:3].copy(), z[3:].copy()
+            dq, dp = sy._eval_dH_dQ(Q, P, jac, clmo), sy._eval_dH_dP(Q, P, jac, clmo)
+            hder = sy._eval_hamiltonian_derivative(Q, P, jac, clmo)
+            via = np.concatenate([dp, -dq])
+            for nm, v in (("(_eval_dH_dP, -_eval_dH_dQ)", via), ("_eval_hamiltonian_derivative", hder),
+                          ("(hamsys.dH_dP, -hamsys.dH_dQ)", np.concatenate([sysm.dH_dP(Q, P), -sysm.dH_dQ(Q, P)]))):
+                if np.asarray(v).tobytes() != np.asarray(got).tobytes() and rel_diff(v, got) > 1e-13:
+                    ctx.violation("evaluators-differ", "%s differs from the right-hand side of the same system" % nm,
+                                  {"kind": "evaluators", "hamiltonian": hd_json(hd), "degree": deg, "state": z.tolist(), "observed": np.asarray(v).tolist(),
+                                   "expected": got.tolist(), "call": nm})
+                    return
+    ctx.extra["rhs_vs_independent_gradient_worst"] = worst
+
+
+def symplectic_pieces(ctx):
+    """the symplectic scheme driven by the *right-hand side* (its P-block for dH/dP, minus its Q-block for dH/dQ) must
+    reproduce the scheme driven by the separate evaluators bit for bit (python-mode bodies), and the compiled scheme to rounding"""
+    import polyutil as PU
+    from hiten.algorithms.dynamics.hamiltonian import _hamiltonian_rhs
+    from hiten.algorithms.integrators import symplectic as sy
+    rng = ctx.rng
+    name = "correspondence:symplectic-evaluators-vs-rhs"
+    bad = []
+
+    def from_rhs_q(Q, P, jac, clmo):
+        return -_hamiltonian_rhs(np.concatenate([Q, P]), jac, clmo, 3)[3:]
+
+    def from_rhs_p(Q, P, jac, clmo):
+        return _hamiltonian_rhs(np.concatenate([Q, P]), jac, clmo, 3)[:3].copy()
+
+    def from_rhs_d(Q, P, jac, clmo):
+        return _hamiltonian_rhs(np.concatenate([Q, P]), jac, clmo, 3)
+
+    over = {"_eval_dH_dQ": from_rhs_q, "_eval_dH_dP": from_rhs_p, "_eval_hamiltonian_derivative": from_rhs_d}
+    for order in ((2, 4, 6, 8) if ctx.thorough() else (2, 4, 6)):
+        deg = rng.choice([4, 6])
+        hd = rand_ham(rng, deg)
+        sysm, H = PU.ham_system(hd, deg)
+        jac, clmo, ndof = sysm.rhs_params
+        y0 = np.array([rng.uniform(-0.2, 0.2) for _ in range(6)])
+        y0[0] = -0.1
+        tv = np.linspace(0.0, 1.0, 9)
+        a = pyclone(sy._integrate_symplectic, {})(y0.copy(), tv, jac, clmo, order, 20.0)
+        b = pyclone(sy._integrate_symplectic, dict(over))(y0.copy(), tv, jac, clmo, order, 20.0)
+        c = sy._integrate_symplectic(y0.copy(), tv, jac, clmo, order, 20.0)
+        ctx.case(("symplectic", order, "grid"), kind="symplectic-pieces")
+        if a.tobytes() != b.tobytes() and rel_diff(a, b) > ROUND:
+            bad.append(("symplectic%d:grid" % order, hd, deg, y0, a, b))
+        if rel_diff(a, c) > 1e-10:
+            bad.append(("symplectic%d:python-vs-compiled" % order, hd, deg, y0, a, c))
+        for evn, dr in (("q1", 0), ("p2", -1)):
+            ev = EVENTS[evn]
+            ra = pyclone(sy._integrate_symplectic_until_event, {})(y0.copy(), tv, jac, clmo, order, ev, dr, 1e-12, 1e-12, 20.0)
+            rb = pyclone(sy._integrate_symplectic_until_event, dict(over))(y0.copy(), tv, jac, clmo, order, ev, dr, 1e-12, 1e-12, 20.0)
+            rc = sy._integrate_symplectic_until_event(y0.copy(), tv, jac, clmo, order, compiled_event(evn), dr, 1e-12, 1e-12, 20.0)
+            fa, fb, fc = ([np.array([float(r[0]), float(r[1])]), np.asarray(r[2], dtype=float)] for r in (ra, rb, rc))
+            ctx.case(("symplectic", order, evn, dr), kind="symplectic-pieces", nontrivial=bool(ra[0]))
+            if not same_bits(fa, fb) and worst_rel(fa, fb) > ROUND:
+                bad.append(("symplectic%d:event" % order, hd, deg, y0, np.concatenate(fa), np.concatenate(fb)))
+            if worst_rel(fa, fc) > 1e-9:
+                bad.append(("symplectic%d:event:python-vs-compiled" % order, hd, deg, y0, np.concatenate(fa), np.concatenate(fc)))
+    if bad:
+        tag, hd, deg, y0, a, b = bad[0]
+        broken(ctx, name, "%s: scheme driven by the evaluators and scheme driven by the rhs differ by %g" % (tag, rel_diff(a, b)))
+        ctx.violation("symplectic-evaluators:" + tag.split(":")[1],
+                      "%s: the symplectic scheme gives different results when its gradient evaluators are replaced by the blocks of the "
+                      "system's right-hand side (rel %g)" % (tag, rel_diff(a, b)),
+                      {"kind": "symplectic", "tag": tag, "hamiltonian": hd_json(hd), "degree": deg, "y0": y0.tolist(), "t_vals": np.linspace(0.0, 1.0, 9).tolist(),
+                       "observed": np.asarray(a).tolist(), "expected": np.asarray(b).tolist()})
+    else:
+        ctx.obligations[name] = True
+
+
+# =====================================================================================================
+
+def run(ctx):
+    gen(ctx)
+    ok = ctx.lean_build(PROPS)
+    if ok:
+        ctx.lean_audit(PROPS, SRC)
+        if ctx.thorough():
+            ctx.leanchecker(PROPS)
+    for name, (tg, th, ng, nh) in MODEL.get("twins", {}).items():
+        if tg != th:
+            ctx.log("twin trace differs:", name)
+    for phase in (corr_poly, corr_fixed_model, rhs_numerics, evaluability, transcripts, differential, symplectic_pieces):
+        t0 = time.time()
+        phase(ctx)
+        ctx.log("%s done in %.1fs" % (phase.__name__, time.time() - t0))
+    ctx.search_ran = True
+    ctx.rule = ("exact: integer/Gaussian-integer polynomials of degree <= 8 x dyadic states (distinct by polynomial, variable, state); "
+                "differential: random polynomial Hamiltonians (oscillator part + random terms up to degree 8) x initial states x "
+                "(integrator family, order, tolerance, grid ascending/descending/uneven, event function, direction) x generic field "
+                "(swappable callback / nopython closure / the system's own rhs when evaluable); distinct by that tuple; non-trivial = "
+                "non-zero derivative / more than two vector-field queries")
+    ctx.assumptions += [
+        "IEEE rounding is not modelled: the Lean polynomial model is exact; the compiled twins are compared bit for bit (identical "
+        "float operations), re-association-level differences (<= 1e-9 relative) are tolerated and counted",
+        "the packed layout (_init_index_tables / _encode_multiindex) is tied by exact comparison up to degree 8, not proved (C06)",
+        "adaptive / event drivers are tied by oracle transcripts and differential execution, not by a Lean model (C02, C10, C11 model them)",
+    ]
+
+
+def replay(ctx, rec):
+    """re-run one recorded failing call on the real code"""
+    import polyutil as PU
+    r = rec.get("replay") or {}
+    kind = r.get("kind")
+    if kind == "twin":
+        from hiten.algorithms.dynamics.rhs import create_rhs_system
+        hd = hd_unjson(r["hamiltonian"])
+        sysm, H = PU.ham_system(hd, r["degree"])
+        use_system(sysm)
+        c = r["config"]
+        cfg = (c["family"], c["order"], c["options"], c["grid"], c["event"], c["direction"])
+        y0 = np.array(r["y0"])
+        gsys = create_rhs_system(generic_swappable(), 6)
+        ah, ag = sol_arrays(run_cfg(cfg, sysm, y0)), sol_arrays(run_cfg(cfg, gsys, y0))
+        e = worst_rel(ah, ag)
+        ctx.log("replayed: bitwise equal =", same_bits(ah, ag), "max relative difference =", e)
+        ctx.case(("replay", json_key(cfg)), kind="replay")
+        if not same_bits(ah, ag) and e > ROUND:
+            report_twin(ctx, cfg, hd, r["degree"], y0, "swappable", ah, ag, e)
+        ctx.obligations["replay-executed"] = True
+        return
+    if kind in ("rhs", "propagate"):
+        evaluability(ctx)
+        ctx.obligations["replay-executed"] = True
+        return
+    return run(ctx)
